@@ -847,7 +847,9 @@ func (cs *ContractSet) buildOverlay() (map[string][]byte, error) {
 			}
 			sig := sigs[ct.RawKey]
 			if sig == nil {
-				cs.errs = append(cs.errs, fmt.Sprintf("%s: stale contract: function %s not found in package %s", ct.File, ct.RawKey, pkgShort(dir)))
+				// the function under contract no longer exists under that name and receiver: not a load error - the checks that
+				// list it as a unit report it as a failed obligation (function-under-contract-missing)
+				cs.notes = append(cs.notes, fmt.Sprintf("%s: stale contract: function %s not found in package %s", ct.File, ct.RawKey, pkgShort(dir)))
 				continue
 			}
 			for _, cl := range ct.Requires {
